@@ -10,14 +10,17 @@ from ..props import prop
 _FROM_ITER = ("_RINvXs_NtNtCs36Lg0Iv5OGD_8dust_dds4dcps11status_maskNtB5_10StatusMaskINtNtNtNtCs8xvirJzNMvV_4core4iter6traits7collect"
               "12FromIteratorRNtNtNtB7_14infrastructure6status10StatusKindE9from_iterINtNtNtB1e_5slice4iter4IterB26_EEB9_.0")
 _POW = "_RNvMs7_NtCs8xvirJzNMvV_4core3numy15overflowing_powCs36Lg0Iv5OGD_8dust_dds"
-_CBMC = ["--unwindset", "memcmp.0:17,%s:15,%s.0:7,%s.1:7" % (_FROM_ITER, _POW, _POW)]
+#  * the `registered_notifications.drain(..)` loop of DcpsStatusCondition::add_communication_state: bound 1 = "the loop body
+#    must be unreachable" (no WaitSet is attached in these harnesses); checked by the unwinding assertion.
+_ACS = "_RNvMs_NtNtCs36Lg0Iv5OGD_8dust_dds4dcps16status_conditionNtB4_19DcpsStatusCondition23add_communication_state.0"
+_CBMC = ["--unwindset", "memcmp.0:17,%s:15,%s.0:7,%s.1:7,%s:1" % (_FROM_ITER, _POW, _POW, _ACS)]
 
 for _pid in ("C30", "C29", "C33", "C27", "C28"):
     prop(
         _pid,
         level="other",
         explanation="(in progress)", bounds="", outside="", level_text="", level_note="", technique="", assumptions=[],
-        timeout={"quick": 900, "thorough": 1800},
+        timeout={"quick": 600, "thorough": 600},
         mem_gb=8,
         cbmc_args=_CBMC,
     )
